@@ -25,6 +25,7 @@
     side a and side b (introspection probe, chains); the physically reduced schema. *)
 From Coq Require Import List NArith ZArith Bool String.
 From ApiFu Require Import Base.Sexp Feat.FeaturesModel Feat.FeaturesSpec Feat.FeaturesDocModel.
+From ApiFu Require Vld.Ast Feat.FeaturesVld.
 Import ListNotations.
 Open Scope string_scope.
 
@@ -809,6 +810,41 @@ Definition check_plumbing (F : features) (l : list sexp) : option sexp :=
       end
   end.
 
+(** the schema in C04's vocabulary (coq/Vld/Ast.v): the hypothesis [FeaturesVld.vok] of the
+    composition theorems with C04's validator model is evaluated on every schema the real
+    schema.New accepted (result coercion of scalars, default values, directive locations and the
+    introspection meta-schema are not part of C13's descriptions and play no role in [vok]) *)
+Fixpoint to_vsty (t : sty) : Vld.Ast.sty :=
+  match t with
+  | StNamed n => Vld.Ast.StNamed n
+  | StList x => Vld.Ast.StList (to_vsty x)
+  | StNonNull x => Vld.Ast.StNonNull (to_vsty x)
+  end.
+Definition to_vinputs (l : list (name * sty)) : list (Vld.Ast.name * Vld.Ast.input_def) :=
+  map (fun a => (fst a, {| Vld.Ast.in_type := to_vsty (snd a); Vld.Ast.in_default := Vld.Ast.DNone |})) l.
+Definition to_vfields (l : list (name * field_def)) : list (Vld.Ast.name * Vld.Ast.field_def) :=
+  map (fun nf => (fst nf, {| Vld.Ast.f_type := to_vsty (f_type (snd nf)); Vld.Ast.f_args := to_vinputs (f_args (snd nf));
+                             Vld.Ast.f_req := f_req (snd nf) |})) l.
+Definition to_vld (S : schema) : Vld.Ast.schema :=
+  {| Vld.Ast.s_types :=
+       map (fun nt => (fst nt,
+                       {| Vld.Ast.t_req := type_req (snd nt);
+                          Vld.Ast.t_body := match snd nt with
+                                            | NScalar _ => Vld.Ast.TScalar (Vld.Ast.SCustom None)
+                                            | NEnum vs _ => Vld.Ast.TEnum (map fst vs)
+                                            | NInput fs _ => Vld.Ast.TInput (to_vinputs fs)
+                                            | NObject fs ifs _ => Vld.Ast.TObject (to_vfields fs) ifs
+                                            | NInterface fs _ => Vld.Ast.TInterface (to_vfields fs)
+                                            | NUnion ms _ => Vld.Ast.TUnion ms
+                                            end |})) (types S);
+     Vld.Ast.s_query := query S; Vld.Ast.s_mutation := mutation S; Vld.Ast.s_subscription := subscription S;
+     Vld.Ast.s_directives := map (fun d => (fst d, {| Vld.Ast.dd_args := to_vinputs (snd d); Vld.Ast.dd_locs := [] |})) (directives S);
+     Vld.Ast.s_meta := [];
+     Vld.Ast.s_impls := flat_map (fun nt => match snd nt with
+                                            | NInterface _ _ => [(fst nt, map fst (impls S (fst nt)))]
+                                            | _ => []
+                                            end) (types S) |}.
+
 Definition check_case (S : schema) (F G : features) (accepted : bool) (l : list sexp) (sd : sexp) : sexp :=
   if negb accepted then
     if schema_ok S then v_mismatch "schema-ok" [of_bool true; of_bool false]
@@ -834,6 +870,7 @@ Definition check_case (S : schema) (F G : features) (accepted : bool) (l : list 
                   | Some v => v
                   | None =>
                       if negb (schema_ok S) then v_mismatch "schema-ok" [of_bool false; of_bool true]
+                      else if negb (FeaturesVld.vok (to_vld S)) then v_mismatch "vok-of-the-C04-composition" []
                       else
                       match (match check_plumbing F l with Some v => Some v | None => first_some (compare_req S E F G) rs' end) with
                       | Some v => v
